@@ -313,8 +313,11 @@ def _check_projection(ctx, proj):
                   f"expected find_arg_optimal({p_var}, {p_rel}.slice({lv}), {p_mode})")
         ffp = FuncFacts(proj.node)
         st = ffp.stmt(calls[0]) if calls else None
-        okv = isinstance(st, ast.Assign) and isinstance(st.targets[0], ast.Tuple) and len(st.targets[0].elts) == 2
+        okv = isinstance(st, ast.Assign) and isinstance(st.targets[0], ast.Tuple) and len(st.targets[0].elts) == 2 and st.value is calls[0]
         val = norm(st.targets[0].elts[1]) if okv else None
+        if not okv and isinstance(st, ast.Assign) and isinstance(st.value, ast.Subscript) and st.value.value is calls[0] and isinstance(st.value.slice, ast.Constant) and st.value.slice.value == 1 \
+                and isinstance(st.targets[0], ast.Name):
+            okv, val = True, st.targets[0].id     # cost = find_arg_optimal(..)[1]
         sets = [n for n in ast.walk(loops[0]) if isinstance(n, ast.Assign) and isinstance(n.value, ast.Call) and call_name(n.value) == "set_value_for_assignment"]
         oks = len(sets) == 1 and norm(sets[0].targets[0]) == norm(sets[0].value.func.value) and [norm(a) for a in sets[0].value.args] == [lv, val]
         ctx.check(bool(okv and oks), "R-SLOTS", "projection stores the optimal *cost* (slot 2) for each assignment and rebinds the result", proj,
